@@ -88,7 +88,8 @@ def parseOp (ws : List String) : Option Op :=
 
 def dstep (s : State) (line : String) : State × List String :=
   match words line with
-  | ["N", h] => ({ fixed := s.fixed, fixedNeg := s.fixedNeg }, [s!"n {h}"])
+  | ["N", h] => ({ fixed := s.fixed, fixedNeg := s.fixedNeg, fixedRet := s.fixedRet }, [s!"n {h}"])
+  | ["CFG", "retfix", b] => ({ s with fixedRet := parseBool b }, [])
   | ["CFG", "fixed", b] => ({ s with fixed := parseBool b }, [])
   | ["CFG", "negfix", b] => ({ s with fixedNeg := parseBool b }, [])
   | [] => (s, [])
